@@ -321,6 +321,32 @@ func (ev *intEval) eval(t *Term) (IV, error) {
 			return IV{}, e4fail("%v in %s", err, pretty(t))
 		}
 		return ev.mk(k, f, nm), nil
+	case OpOr:
+		// (v << s) | c with 0 <= c < 2^s sets bits that are zero in v << s: it is v<<s + c, without carries
+		a, err := ev.eval(t.Args[0])
+		if err != nil {
+			return IV{}, err
+		}
+		b, err := ev.eval(t.Args[1])
+		if err != nil {
+			return IV{}, err
+		}
+		if a.f.isConst() && a.exact() && !(b.f.isConst() && b.exact()) {
+			a, b = b, a
+		}
+		if b.f.isConst() && b.exact() {
+			cst := b.f.eval(big.NewInt(0))
+			la, lb, lin := a.f.linear()
+			if cst.Sign() >= 0 && lin {
+				s := cst.BitLen()
+				if nu2(la) >= s && nu2(lb) >= s && a.m >= s {
+					f := a.f
+					f.C = new(big.Int).Add(f.C, cst)
+					return ev.mk(k, f, minI(a.m, k.Bits)), nil
+				}
+			}
+		}
+		return IV{}, e4fail("bitwise or that is not (multiple of 2^s) | (constant below 2^s): %s", pretty(t))
 	case OpNeg:
 		return IV{}, e4fail("negation in a kernel: %s", pretty(t))
 	case OpIte:
@@ -538,8 +564,8 @@ func (c *Checker) extractKernel(fn *ssa.Function, srcDepth, dstDepth int64) (*ke
 	src, dst := buf{paramName(fn, 0)}, buf{paramName(fn, 1)}
 	bd := c.typeByName("BitDepth")
 	assume := map[string]*Term{
-		src.name + ".bitDepth": mkInt(srcDepth, bd),
-		dst.name + ".bitDepth": mkInt(dstDepth, bd),
+		src.name + hdrLayout.depthSuffix(): mkInt(srcDepth, bd),
+		dst.name + hdrLayout.depthSuffix(): mkInt(dstDepth, bd),
 	}
 	s := c.runAssumed(fn, assume)
 	k := &kernel{fn: fn, ret: s}
@@ -552,6 +578,7 @@ func (c *Checker) extractKernel(fn *ssa.Function, srcDepth, dstDepth int64) (*ke
 		}
 	}
 	nLoopPaths := 0
+	firstSig := ""
 	for _, o := range retPaths(s) {
 		var stores []*Effect
 		for _, e := range mods(o) {
@@ -564,10 +591,27 @@ func (c *Checker) extractKernel(fn *ssa.Function, srcDepth, dstDepth int64) (*ke
 		if len(stores) == 0 {
 			continue
 		}
+		// return paths that differ only after the loop (e.g. in how the returned count is computed) carry the
+		// same stores: they are one loop path
+		sig := ""
+		for _, e := range stores {
+			sig += fmt.Sprintf("%d:%s|", e.Pos, valString(e.Val))
+			if len(e.Loops) > 0 {
+				for _, f := range e.Facts.list[minI(e.Loops[0].FactBase, len(e.Facts.list)):] {
+					if f.Tag != "axiom" && f.Tag != "loop" {
+						sig += f.String() + ";"
+					}
+				}
+			}
+		}
+		if nLoopPaths > 0 && sig == firstSig {
+			continue
+		}
 		nLoopPaths++
 		if nLoopPaths > 1 {
 			return nil, e4fail("more than one loop path is reachable with fixed bit depths")
 		}
+		firstSig = sig
 		for _, e := range stores {
 			v := valTerm(e.Val)
 			if v == nil {
